@@ -3,6 +3,7 @@ CHECK_DEADLOCK FALSE
 INVARIANT TypeOK
 INVARIANT SketchOfUnion
 INVARIANT EmptyIffNoElements
+INVARIANT AllClearedIsInit
 INVARIANT MergeIdempotent
 INVARIANT MergeCommutative
 INVARIANT MergeAssociative
@@ -14,6 +15,7 @@ INVARIANT UnionLaw
 INVARIANT ExportImportIdentity
 INVARIANT MalformedRefused
 PROPERTY Monotone
+PROPERTY ClearedIsNew
 PROPERTY ReAddIsNoOp
 PROPERTY OnlyTarget
 PROPERTY RefusalsChangeNothing
